@@ -25,13 +25,20 @@ Inductive case :=
 | CCodonTable (v : impl) (id : Z) (minus : bool)                (* the 64 canonical codons, one strand *)
 | CTranslate (v : impl) (id : Z) (s : str) (start : Z) (minus : bool)
 | CSixframes (v : impl) (id : Z) (m : moltype) (s : str)
-| CFixedFrames (id : Z) (s : str)                               (* variant model [translate_fixed] *)
-| CGetTrans (kind : Z) (id : Z) (seqs : list str)               (* all 8 (incomplete_ok, include_stop, trim_stop) *)
+| CAllFrames (v : impl) (id : Z) (s : str)                      (* translate for (plus, minus) x start 0,1,2 *)
+| CPinnedFrames (id : Z) (s : str)                              (* same, pre-repair model [translate_pinned] *)
+| CRc2 (v : impl) (m : moltype) (s : str)                       (* rc(rc(s)) *)
+| CGetTrans (fixed : bool) (kind : Z) (id : Z) (seqs : list str)  (* all 8 (incomplete_ok, include_stop, trim_stop);
+                                                                     fixed = with / without the repairs C12-2, C12-3 *)
+| CPinnedTranslate (id : Z) (s : str) (start : Z) (minus : bool)  (* pre-repair model [translate_pinned] *)
 | CComplement (v : impl) (m : moltype) (s : str)
 | CRc (v : impl) (m : moltype) (s : str)
 | CResolve (v : impl) (m : moltype) (motif : str)
 | CWhat (m : moltype) (motifs : list Z)
 | CDegen (v : impl) (m : moltype) (symbols : list Z).
+
+(** kinds of [CGetTrans]: 0 old Sequence, 1 new Sequence, 2 old SequenceCollection, 3 new
+    SequenceCollection, 4 old Alignment, 7 old ArrayAlignment, 5 new Sequence.rc(), 6 old Sequence.rc() *)
 
 (** translation through a genetic-code object: new = translate(s, start, rc);
     old = translate(s, start) resp. translate(DNA.rc(s), start) *)
@@ -42,14 +49,20 @@ Definition run_translate (v : impl) (id : Z) (s : str) (start : Z) (minus : bool
   | Old => vres VS (translate_old aa (if minus then rc_pure dna_comp_old s else s) start)
   end.
 
-Definition get_trans (kind : Z) (aa : str) (seqs : list str) (ok inc trim : bool) : res (list str) :=
-  if kind =? 0 then
-    match seqs with [s] => bind (seq_get_translation_old aa s ok inc trim) (fun p => Ok [p]) | _ => Err E_Unmodelled end
-  else if kind =? 1 then
-    match seqs with [s] => bind (seq_get_translation_new aa s ok inc trim) (fun p => Ok [p]) | _ => Err E_Unmodelled end
-  else if kind =? 2 then coll_get_translation_old aa seqs ok inc trim
-  else if kind =? 3 then coll_get_translation_new aa seqs ok inc trim
-  else if kind =? 4 then aln_get_translation_old aa seqs ok inc trim
+Definition get_trans (fx : bool) (kind : Z) (aa : str) (seqs : list str) (ok inc trim : bool) : res (list str) :=
+  if (kind =? 0) || (kind =? 6) then
+    match seqs with
+    | [s] => let s := if kind =? 6 then rc_pure dna_comp_old s else s in
+             bind (seq_get_translation_old fx aa s ok inc trim) (fun p => Ok [p])
+    | _ => Err E_Unmodelled end
+  else if (kind =? 1) || (kind =? 5) then
+    match seqs with
+    | [s] => let s := if kind =? 5 then rc_pure dna_comp_new s else s in
+             bind (seq_get_translation_new fx aa s ok inc trim) (fun p => Ok [p])
+    | _ => Err E_Unmodelled end
+  else if kind =? 2 then coll_get_translation_old fx fx aa seqs ok inc trim
+  else if kind =? 3 then coll_get_translation_new fx aa seqs ok inc trim
+  else if (kind =? 4) || (kind =? 7) then aln_get_translation_old fx fx aa seqs ok inc trim
   else Err E_Unmodelled.
 
 Definition run_case (c : case) : val :=
@@ -60,11 +73,16 @@ Definition run_case (c : case) : val :=
   | CTranslate v id s start minus => run_translate v id s start minus
   | CSixframes New id _ s => vframes (sixframes (code_aa New id) s)
   | CSixframes Old id m s => vres vstrs (sixframes_old (code_aa Old id) m s)
-  | CFixedFrames id s => vframes (sixframes_fixed (code_aa New id) s)
-  | CGetTrans kind id seqs =>
-      let aa := code_aa (if (kind =? 1) || (kind =? 3) then New else Old) id in
+  | CAllFrames v id s =>
+      VL (flat_map (fun mn => map (fun st => run_translate v id s st mn) [0; 1; 2]) [false; true])
+  | CPinnedFrames id s =>
+      VL (flat_map (fun mn => map (fun st => VS (translate_pinned (code_aa New id) s st mn)) [0; 1; 2]) [false; true])
+  | CRc2 v m s => vres VS (bind (rc v m s) (rc v m))
+  | CPinnedTranslate id s start minus => VS (translate_pinned (code_aa New id) s start minus)
+  | CGetTrans fx kind id seqs =>
+      let aa := code_aa (if (kind =? 1) || (kind =? 3) || (kind =? 5) then New else Old) id in
       VL (map (fun o : bool * bool * bool =>
-                 let '(ok, inc, trim) := o in vres vstrs (get_trans kind aa seqs ok inc trim)) bools3)
+                 let '(ok, inc, trim) := o in vres vstrs (get_trans fx kind aa seqs ok inc trim)) bools3)
   | CComplement v m s => vres VS (complement v m s)
   | CRc v m s => vres VS (rc v m s)
   | CResolve v m motif => vres vstrs (resolve_ambiguity v m motif)
